@@ -4,6 +4,12 @@ R15.0  R05.1 / R05.2 restricted to the int / float / fixed-width primitive bindi
 R15.1  raw C division/modulo (IntOp.DIV / IntOp.MOD) is only emitted under a guard that excludes a
        zero divisor (and -1 for signed types): a compile-time constant divisor not in (-1, 0), or a
        dominating check_for_zero_division; the inline helpers are only called under that guard.
+R15.3  the inline fast path of tagged-int multiplication cannot overflow under its guard: from
+       clang's expression trees of CPy.h, CPyTagged_Multiply returns `left * (right >> 1)` only
+       under CheckShort(left) && CheckShort(right) && !IsMultiplyOverflow(left, right); the guard
+       is a disjunction of unsigned comparisons of each operand with a constant bound; with the
+       largest admitted (even) tagged operands the product stays below 2**(word bits - 1), i.e.
+       remains a valid short tagged int (interval arithmetic on the two constants, LP64 assumed).
 R15.2  no silent narrowing of int: each Truncate(...) of a value that may exceed the target range is
        dominated by check_fixed_width_range, which branches to the overflow block on both bounds;
        the remaining Truncate sites are tabled.
@@ -76,6 +82,8 @@ def run(chk: Check) -> None:
         else:
             r1.violation(key, f.loc(n), "a raw C division/modulo is emitted without excluding a zero divisor (undefined behaviour / SIGFPE instead of ZeroDivisionError)")
 
+    run_multiply_guard(chk, ix)
+
     r2 = chk.rule("R15.2", "Truncate of a possibly out-of-range value is dominated by check_fixed_width_range, which tests both bounds; other Truncate sites are tabled", floor=7)
     cfr = llb.methods.get("check_fixed_width_range")
     if cfr is None:
@@ -109,3 +117,132 @@ def run(chk: Check) -> None:
                     r2.ok(key, f.loc(n), "dominated by check_fixed_width_range")
                 else:
                     r2.violation(key, f.loc(n), "a value is truncated to a narrower C type without a dominating range check: an out-of-range int would wrap silently instead of raising OverflowError")
+
+
+def _strip(n):
+    while n.get("kind") in ("ImplicitCastExpr", "ParenExpr", "CStyleCastExpr", "ConstantExpr") and n.get("inner"):
+        n = n["inner"][-1]
+    return n
+
+
+def _const(n, env, depth=0):
+    """Value of a C integer constant expression (LP64: sizeof of word-sized types is 8)."""
+    n = _strip(n)
+    k = n.get("kind")
+    if depth > 40:
+        raise AnalysisError("constant expression too deep")
+    if k == "IntegerLiteral":
+        return int(n["value"])
+    if k == "UnaryExprOrTypeTraitExpr":
+        t = (n.get("argType") or "").replace("const", "").strip()
+        if t in ("CPyTagged", "size_t", "unsigned long", "Py_ssize_t", "long", "void *", "PyObject *", "uint64_t", "int64_t"):
+            return 8
+        if t in ("int", "unsigned int", "int32_t", "uint32_t"):
+            return 4
+        raise AnalysisError(f"sizeof({t}) not known to the analysis")
+    if k == "DeclRefExpr":
+        if n.get("ref") in env:
+            return env[n["ref"]]
+        raise AnalysisError(f"reference to non-constant `{n.get('ref')}` in a bound")
+    if k == "BinaryOperator":
+        a, b = _const(n["inner"][0], env, depth + 1), _const(n["inner"][1], env, depth + 1)
+        op = n["opcode"]
+        if op == "<<":
+            return a << b
+        if op == ">>":
+            return a >> b
+        if op == "+":
+            return a + b
+        if op == "-":
+            return a - b
+        if op == "*":
+            return a * b
+        if op == "/":
+            return a // b
+    if k == "UnaryOperator" and n.get("opcode") == "-":
+        return -_const(n["inner"][0], env, depth + 1)
+    raise AnalysisError(f"unsupported constant expression node {k}")
+
+
+def run_multiply_guard(chk: Check, ix) -> None:
+    from ..cfront import function_bodies
+    r3 = chk.rule("R15.3", "CPyTagged_Multiply's inline fast path `left * (right >> 1)` is taken only for short operands that CPyTagged_IsMultiplyOverflow admits, and the largest admitted operands give a product below 2**63 (no wrap-around of the tagged result)", floor=2)
+    chk.assumptions.append("LP64 data model for the constant bounds of lib-rt (sizeof(size_t) == 8)")
+    bodies = function_bodies(ix.root, "CPy.h", ["CPyTagged_IsMultiplyOverflow", "CPyTagged_Multiply", "CPyTagged_ShortAsSsize_t"])
+    for nm in ("CPyTagged_IsMultiplyOverflow", "CPyTagged_Multiply", "CPyTagged_ShortAsSsize_t"):
+        if nm not in bodies:
+            raise AnalysisError(f"{nm}: body not found in CPy.h")
+    BITS = 64
+
+    def walk(n):
+        yield n
+        for c in n.get("inner", []):
+            yield from walk(c)
+
+    # --- the guard: bounds per operand
+    g = bodies["CPyTagged_IsMultiplyOverflow"]
+    params = [c["name"] for c in g["inner"] if c["kind"] == "ParmVarDecl"]
+    env = {}
+    for n in walk(g):
+        if n["kind"] == "VarDecl" and n.get("inner"):
+            try:
+                env[n["name"]] = _const(n["inner"][-1], env)
+            except AnalysisError:
+                pass
+    rets = [n for n in walk(g) if n["kind"] == "ReturnStmt"]
+    if len(rets) != 1:
+        raise AnalysisError("CPyTagged_IsMultiplyOverflow: single return expected")
+    admitted = {}
+    def disj(n):
+        n = _strip(n)
+        if n["kind"] == "BinaryOperator" and n["opcode"] == "||":
+            return disj(n["inner"][0]) + disj(n["inner"][1])
+        return [n]
+    for cmp_ in disj(rets[0]["inner"][0]):
+        if cmp_["kind"] != "BinaryOperator" or cmp_["opcode"] not in (">=", ">"):
+            raise AnalysisError(f"CPyTagged_IsMultiplyOverflow: unexpected disjunct {cmp_.get('kind')} {cmp_.get('opcode')}")
+        lhs = _strip(cmp_["inner"][0])
+        if lhs["kind"] != "DeclRefExpr" or lhs.get("ref") not in params:
+            raise AnalysisError("CPyTagged_IsMultiplyOverflow: comparison does not test an operand")
+        bound = _const(cmp_["inner"][1], env)
+        largest = bound - 1 if cmp_["opcode"] == ">=" else bound
+        largest -= largest % 2  # short tagged ints are even
+        admitted[lhs["ref"]] = min(largest, admitted.get(lhs["ref"], largest))
+    if set(admitted) != set(params):
+        r3.violation("CPyTagged_IsMultiplyOverflow bounds both operands", "mypyc/lib-rt/CPy.h", f"only {sorted(admitted)} of {params} are bounded: the other operand can be any short int and the inline product can wrap")
+        return
+    # --- the fast path
+    mul = bodies["CPyTagged_Multiply"]
+    mparams = [c["name"] for c in mul["inner"] if c["kind"] == "ParmVarDecl"]
+    fast = None
+    for n in walk(mul):
+        if n["kind"] == "ReturnStmt" and n.get("inner"):
+            e = _strip(n["inner"][0])
+            if e["kind"] == "BinaryOperator" and e["opcode"] == "*":
+                fast = e
+    if fast is None:
+        raise AnalysisError("CPyTagged_Multiply: inline product not found")
+    a, b = _strip(fast["inner"][0]), _strip(fast["inner"][1])
+    def is_param(x):
+        return x["kind"] == "DeclRefExpr" and x.get("ref") in mparams
+    def is_untagged(x):
+        return x["kind"] == "CallExpr" and _strip(x["inner"][0]).get("ref") == "CPyTagged_ShortAsSsize_t" and is_param(_strip(x["inner"][1]))
+    shape = (is_param(a) and is_untagged(b)) or (is_param(b) and is_untagged(a))
+    sh = bodies["CPyTagged_ShortAsSsize_t"]
+    shr = [n for n in walk(sh) if n["kind"] == "BinaryOperator" and n["opcode"] == ">>"]
+    halves = bool(shr) and _const(shr[0]["inner"][1], {}) == 1
+    guards = {(_strip(c["inner"][0]).get("ref")) for c in walk(mul) if c["kind"] == "CallExpr"}
+    under = {"CPyTagged_CheckShort", "CPyTagged_IsMultiplyOverflow"} <= guards and any(n["kind"] == "UnaryOperator" and n.get("opcode") == "!" and _strip(n["inner"][0]).get("kind") == "CallExpr" and _strip(_strip(n["inner"][0])["inner"][0]).get("ref") == "CPyTagged_IsMultiplyOverflow" for n in walk(mul))
+    if shape and halves and under:
+        r3.ok("CPyTagged_Multiply: fast path is `tagged * untagged` under CheckShort x2 and !IsMultiplyOverflow", "mypyc/lib-rt/CPy.h")
+    else:
+        r3.violation("CPyTagged_Multiply: fast path is `tagged * untagged` under CheckShort x2 and !IsMultiplyOverflow", "mypyc/lib-rt/CPy.h", f"shape ok: {shape}; ShortAsSsize_t halves: {halves}; guarded: {under}")
+        return
+    L, R = admitted[params[0]], admitted[params[1]]
+    worst = max(L * (R // 2), R * (L // 2))
+    limit = 1 << (BITS - 1)
+    key = f"largest admitted tagged operands {L} and {R}: product {worst} < 2**{BITS - 1}"
+    if worst < limit:
+        r3.ok("the inline product of the largest admitted operands stays below 2**63", "mypyc/lib-rt/CPy.h", key)
+    else:
+        r3.violation("the inline product of the largest admitted operands stays below 2**63", "mypyc/lib-rt/CPy.h", f"CPyTagged_IsMultiplyOverflow admits tagged operands up to {L} and {R} (ints {L // 2} and {R // 2}); the fast path computes {L} * {R // 2} = {L * (R // 2)} >= 2**63 on size_t, which wraps: the compiled `a * b` returns a wrong (negative) int instead of taking the slow path")
